@@ -342,7 +342,9 @@ static void dump_msa(struct msa *m, int codes)
                 fprintf(out, "%s{\"name\":", i ? "," : "");
                 jcstr(q->name, 1 << 20);
                 fprintf(out, ",\"len\":%d,\"rank\":%d,\"seq\":", q->len, q->rank);
-                if (m->aligned == ALN_STATUS_FINAL) {
+                /* ALN_STATUS_UNKNOWN has the same value as ALN_STATUS_FINAL: only a non-zero
+                   alnlen says that seq[] holds the gapped row */
+                if (m->aligned == ALN_STATUS_FINAL && m->alnlen > 0) {
                         jcstr(q->seq, (long)m->alnlen + 8);
                 } else {
                         jstr(q->seq, q->len);
